@@ -922,7 +922,14 @@ def solve_sylvester_diagonal(
         if index[0] != index[1] and index[:2] not in index_checked:
             compare = np.equal if isinstance(Y, sympy.MatrixBase) else np.isclose
 
-            if np.any(compare(eigs_A.reshape(-1, 1), eigs_B.reshape(1, -1))):
+            shared = compare(eigs_A.reshape(-1, 1), eigs_B.reshape(1, -1))
+            if atol is not None and not isinstance(Y, sympy.MatrixBase):
+                # Energies closer than atol are treated as equal below (the solution is
+                # set to zero there), so they must be rejected here too.
+                shared = shared | (
+                    np.abs(eigs_A.reshape(-1, 1) - eigs_B.reshape(1, -1)) <= atol
+                )
+            if np.any(shared):
                 raise ValueError("The subspaces must not share eigenvalues.")
             index_checked.add(index[:2])
 
